@@ -58,21 +58,37 @@ def report_instance(ctx, r):
 
 
 def replay_instances(ctx, binp, scns, tag, variants, allpos=0, big_every=0, timeout=2400, force=None):
-    scnp = os.path.join(ctx.build, "c20.%s.scn.ndjson" % tag)
-    outp = os.path.join(ctx.build, "c20.%s.out.ndjson" % tag)
-    vf.write_ndjson(scnp, scns)
-    env = dict(VERIF_SCN=scnp, VERIF_OUT=outp, VERIF_VARIANTS=variants, VERIF_ALLPOS=allpos, VERIF_BIG_EVERY=big_every)
-    if force:
-        env["VERIF_FORCE"] = json.dumps(force)
-    ctx.run_harness(binp, "TestVerifC20Replay", env=env, timeout=timeout)
-    summ, rows = summary_of(vf.read_ndjson(outp), "replay(%s)" % tag)
-    for r in rows:
-        report_instance(ctx, r)
-    ctx.cov["evaluations"] += summ["evaluations"]
-    ctx.cov["traces_validated_against_impl"] += summ["evaluations"]
-    ctx.cov["distinct_nontrivial"] += summ["nontrivial"]
-    ctx.notes.setdefault("replay", {})[tag] = summ
-    return summ
+    total = None
+    shard = 120000
+    for lo in range(0, max(1, len(scns)), shard):
+        part = scns[lo:lo + shard]
+        scnp = os.path.join(ctx.build, "c20.%s.%d.scn.ndjson" % (tag, lo))
+        outp = os.path.join(ctx.build, "c20.%s.%d.out.ndjson" % (tag, lo))
+        vf.write_ndjson(scnp, part)
+        env = dict(VERIF_SCN=scnp, VERIF_OUT=outp, VERIF_VARIANTS=variants, VERIF_ALLPOS=allpos, VERIF_BIG_EVERY=big_every,
+                   GOMEMLIMIT="6GiB")
+        if force:
+            env["VERIF_FORCE"] = json.dumps(force)
+        ctx.run_harness(binp, "TestVerifC20Replay", env=env, timeout=timeout)
+        summ, rows = summary_of(vf.read_ndjson(outp), "replay(%s)" % tag)
+        os.remove(scnp)
+        for r in rows:
+            report_instance(ctx, r)
+        ctx.cov["evaluations"] += summ["evaluations"]
+        ctx.cov["traces_validated_against_impl"] += summ["evaluations"]
+        if tag not in ("allpos", "replay"):  # those histories were counted with tag "D" already
+            ctx.cov["distinct_nontrivial"] += summ["nontrivial"]
+        if total is None:
+            total = summ
+        else:
+            for k, v in summ.items():
+                if isinstance(v, int) and not isinstance(v, bool):
+                    total[k] = total.get(k, 0) + v
+                elif isinstance(v, dict):
+                    for k2, v2 in v.items():
+                        total[k][k2] = total[k].get(k2, 0) + v2
+    ctx.notes.setdefault("replay", {})[tag] = total
+    return total
 
 
 def sandwich(s):
@@ -121,23 +137,29 @@ def run(ctx):
     dsc = [s for s in scns if s["side"] == "D"]
     csc = [s for s in scns if s["side"] == "C"]
     ctx.log("histories: %d decompressor + %d compressor (%d simulated)" % (len(dsc), len(csc), len(sims)))
-    for s in (dsc[:: max(1, len(dsc) // 2)][:2] + csc[:: max(1, len(csc) // 2)][:2]):
-        ctx.sample(dict(side=s["side"], grammar=s["gram"], calls=fmt_ops(s["ops"]), obligations=[o["must"] for o in s["obl"]]))
+    def first(pred, pool):
+        return next((x for x in pool if pred(x)), None)
+    picks = [first(lambda s: s["gram"] == "pool" and sandwich(s), dsc),
+             first(lambda s: s["gram"] == "free" and sandwich(s) and any(o["o"] == "Close" for o in s["ops"]), dsc),
+             first(lambda s: s["gram"] == "free" and sum(1 for o in s["obl"] if o["must"] == "stream") >= 2, csc),
+             first(lambda s: s["gram"] == "raw" and len(s["ops"]) >= 8, csc)]
+    for s in picks:
+        if s:
+            ctx.sample(dict(side=s["side"], grammar=s["gram"], calls=fmt_ops(s["ops"]),
+                            obligations=[o["must"] + ((":" + o["p"]) if o["must"] == "bytes" else "") for o in s["obl"]]))
 
     # 3. spec -> code: every history on real instances of all six encodings
     binp = ctx.go_test_bin("internal/compression", ["c20"])
-    replay_instances(ctx, binp, dsc, "D", variants=2 if q else 4, big_every=400 if q else 150)
-    replay_instances(ctx, binp, csc, "C", variants=1 if q else 2, big_every=0)
+    replay_instances(ctx, binp, dsc, "D", variants=2 if q else 3, big_every=400 if q else 150)
+    replay_instances(ctx, binp, csc, "C", variants=1, big_every=0)
     sw = [s for s in dsc if sandwich(s) and len(s["ops"]) <= 8]
     rnd.shuffle(sw)
     sw = sw[: (60 if q else 500)]
     replay_instances(ctx, binp, sw, "allpos", variants=0, allpos=64 if q else 100000)
     ctx.notes["all_positions"] = dict(histories=len(sw), rule="every cut position; %s flipped bits of a 43-byte payload's stream" % ("64 seeded" if q else "all"))
 
-    # outside the usage discipline (recorded, never judged)
-    hz = os.path.join(ctx.build, "c20.hazard.ndjson")
-    ctx.run_harness(binp, "TestVerifC20Hazard", env=dict(VERIF_OUT=hz), timeout=300)
-    ctx.notes["outside_discipline"] = [r for r in vf.read_ndjson(hz) if r["ret"] == "panic"]
+    # crashes (the last clause of the statement): probes at the edge of the usage discipline
+    run_hazard(ctx, binp)
 
     # 4. code -> spec: long seeded histories of real instances, accepted line by line by Trace_Compress
     n_rec = 4000 if q else 40000
@@ -176,7 +198,9 @@ def run(ctx):
     ctx.notes["recorded"] = dict(lines=len(recs), calls=sum(len(r["ops"]) for r in recs), model_drift_lines=drift)
     if drift:
         ctx.log("note: %d recorded histories are outside the operational model (law met; model drift, not a verdict)" % drift)
-    ctx.sample(dict(recorded=dict(enc=recs[0]["enc"], side=recs[0]["side"], calls=fmt_ops(recs[0]["ops"]), results=[o["ret"] for o in recs[0]["obs"]])))
+    r0 = next((r for r in recs if r["side"] == "D" and 6 <= len(r["ops"]) <= 14), recs[0])
+    ctx.sample(dict(recorded=dict(enc=r0["enc"], side=r0["side"], calls=fmt_ops(r0["ops"]),
+                                  results=[o["ret"] + ("=" + "/".join(o["eq"]) if o["eq"] else "") for o in r0["obs"]])), limit=6)
 
     # 5. name table: obligations from Gen_CompressNames on the real components
     xc = ctx.go_test_bin("internal/app/referenceclient", ["c20/xc"], name="c20xc")
@@ -196,7 +220,7 @@ def run(ctx):
             seen.add(k)
             seqs.append(dict(msgs=msgs))
     rnd.shuffle(seqs)
-    seqs = seqs[: (400 if q else 3000)]
+    seqs = seqs[: (400 if q else 2000)]
     run_seq(ctx, xc, seqs)
     raws, seen = [], set()
     for s in csc:
@@ -222,10 +246,42 @@ def run(ctx):
             "4" if q else "5", "5" if q else "6", "3" if q else "4"))
     ctx.assumptions += [
         "stock codecs of the same third-party libraries (used without the repository's wrappers) identify wire formats",
-        "usage discipline: first call is Reset; after a Reset that reported an error the instance is only Reset again (what connect's pools and the tracer do)",
+        "usage discipline of the bulk histories: first call is Reset; after a Reset that reported an error the instance is only Reset again "
+        "(what connect's pools and the tracer do); Close/Read right after a failed first Reset is probed separately for crashes",
         "compressed bytes are not modelled: Z(z,p) is an uninterpreted token, the harness supplies and compares bytes",
         "e2e sequences run with GOMAXPROCS(1) so that sync.Pool hands the recycled instance to the next request",
+        "corrupted zstd streams whose frame header announces more than 32 MiB are re-drawn in the bulk replay: the klauspost decoder "
+        "allocates the announced size up front (a 13-byte message costs 400 MiB, measured as a note), which would only exhaust the sandbox",
     ]
+
+
+def run_hazard(ctx, binp):
+    """Close / Read right after a Reset that failed on a never-used instance; a stream with 8 bytes after its end
+    delivered one byte per Read; what a 13-byte zstd header makes the decoder allocate (note only)."""
+    runs = []
+    for k in range(3):
+        hz = os.path.join(ctx.build, "c20.hazard.%d.ndjson" % k)
+        ctx.run_harness(binp, "TestVerifC20Hazard", env=dict(VERIF_OUT=hz), timeout=600)
+        runs.append(vf.read_ndjson(hz))
+    ctx.notes["zstd_header_announced_allocation"] = [r for r in runs[0] if r.get("then") == "alloc"]
+    ctx.notes["hazard_probes"] = [dict(enc=r["enc"], then=r["then"], ret=r["ret"]) for r in runs[0]]
+    for i, r in enumerate(runs[0]):
+        ctx.cov["evaluations"] += 1
+        if r["ret"] != "panic":
+            continue
+        if not all(len(o) > i and o[i]["ret"] == "panic" for o in runs[1:]):
+            ctx.notes["unreproduced"] = ctx.notes.get("unreproduced", 0) + 1
+            continue
+        cause = ""
+        if r["then"] == "Close" and r.get("reset_garbage") == "err":
+            cause = "close-after-failed-first-reset"
+        elif r.get("overrun"):
+            cause = "brotli-bytewise-source-internal-buffer-overrun"
+        key = dict(component="instance", side="D", enc=r["enc"], op=r["then"], obs_ret="panic", cause=cause)
+        ctx.candidate(key, "%s decompressor from GetDecompressor panics: %s -> %s" % (
+            r["enc"], "Reset(garbage) reported %s, then %s" % (r.get("reset_garbage"), r["then"]) if "reset_garbage" in r
+            else "%d-byte stream = valid stream + 8 bytes, source hands out one byte per Read" % r.get("stream_bytes", 0), r["err"]),
+            dict(component="hazard", probe=r))
 
 
 def report_recorded(ctx, r, at):
@@ -241,10 +297,15 @@ def report_recorded(ctx, r, at):
                 closed_pipe = True
         if closed_pipe and "closed pipe" in obs[at - 1].get("err", ""):
             cause = "sink-closed-by-compressor-Close"
+    elif r["enc"] == "br" and at and obs[at - 1]["ret"] == "panic" and "index out of range [8] with length 8" in obs[at - 1].get("err", "") \
+            and "brotli.decoderDecompressStream" in obs[at - 1].get("err", ""):
+        cause = "brotli-bytewise-source-internal-buffer-overrun"
     elif r["enc"] == "br":
-        for o, b in zip(ops[: at - 1], obs[: at - 1]):
-            if (o["o"] == "Reset" and o["k"] == "trail") or "excessive input" in b.get("err", ""):
-                cause = "brotli-leftover-input-after-trailing-bytes"
+        for o, b in reversed(list(zip(ops[:at], obs[:at]))):
+            if o["o"] == "Reset":
+                if b.get("left", 0) > 0:
+                    cause = "brotli-reset-keeps-buffered-input"
+                break
     key = dict(component="instance-recorded", side=r["side"], enc=r["enc"], op=ops[at - 1]["o"] if at else None,
                obs_ret=obs[at - 1]["ret"] if at else None, cause=cause)
     ctx.candidate(key, "recorded %s %s history rejected by Trace_Compress at call #%d: [%s] observed %s" % (
@@ -275,7 +336,7 @@ def run_names(ctx, xc, obls):
     ctx.cov["traces_validated_against_impl"] += summ["obligations"]
     ctx.cov["distinct_nontrivial"] += summ["obligations"]
     ctx.notes["names"] = summ
-    ctx.sample(dict(name_obligation=obls[len(obls) // 2]))
+    ctx.sample(dict(name_obligation=obls[len(obls) // 2]), limit=7)
 
 
 def run_seq(ctx, xc, seqs, force=None):
@@ -336,6 +397,8 @@ def run_replay(ctx):
     elif comp == "names":
         xc = ctx.go_test_bin("internal/app/referenceclient", ["c20/xc"], name="c20xc")
         run_names(ctx, xc, [sc["obl"]])
+    elif comp == "hazard":
+        run_hazard(ctx, ctx.go_test_bin("internal/compression", ["c20"]))
     elif comp == "instance-recorded":
         meta = json.load(open(ctx.replay))
         if meta.get("seed") != ctx.seed:
